@@ -841,6 +841,8 @@ func main() {
 	}, []string{
 		"reference reftx.DecodeTx/DecodeBlock transcribes Bitcoin Core's UnserializeTransaction (witness allowed), ReadCompactSize(range_check) and vector reading; it is validated on every transaction of the repository's tx_valid.json, tx_invalid.json and sighash.json (decode, full consumption, identical re-encoding, prevouts as listed)",
 		"allocation bound: a legitimately decoded element costs gocoin at most 24 B (slice header of an empty witness item) to 72 B (TxIn struct + pointer per >= 41 wire bytes) per wire byte it occupies, i.e. < 32 B per input byte including size-class rounding; 64*len + 64 KiB therefore holds for every proportional decoder, measured margin is in max_alloc_fraction_of_bound_on_accepted_decodes",
+		"route agreement: for every transaction accepted by both sides the numbers are also taken through NewTx + SetHash(nil) and through a two-transaction block (BuildTxListExt with and without hashes) and compared with the reference (keys route-sethash-nil/*, route-block/*); TxSize is compared on every case",
+		"bases count/*: number of inputs, of outputs and of witness items of an input at 252, 253, 254 (thorough also 65535, 65536) with the smallest possible elements; for these bases byte-level mutations cover the first and last 48 bytes and field-level ones the count fields and the first / last two length fields",
 		"every case is decoded four times: as a slice with cap == len and as b[:len] of three longer backing arrays; verdict, consumed size, re-serialisation, hashes and TxSize must not depend on the bytes between len and cap (keys cap/*)",
 		"families wrap / wrap2 put into every count and length field the values for which offs+n+value wraps around in int64 (-(n), -(n+1), -(offs+n), bytes left +-1, 2^63 +-1, ...), wrap2 combines a never-ending count (2^63-1, 2^64-1, 2^62+1, bytes left) in a count field with such a value in the length field of its first element; btc.TxSize is called on every case; a call that makes no progress for 60 s is killed, re-run alone with 120 s and reported as hang/<API>-does-not-return; after three hangs in a family the rest of the family is dropped and the run is not exhaustive",
 		"a zero-transaction block deserialises in Core and is refused by CheckBlock; gocoin refuses it in BuildTxListExt (same RPC result bad-blk-length): not judged",
